@@ -28,6 +28,7 @@ var crashPatterns = []struct {
 	{"index-out-of-range", regexp.MustCompile(`index out of range|slice bounds out of range`)},
 	{"interface-conversion", regexp.MustCompile(`interface conversion`)},
 	{"runtime-error", regexp.MustCompile(`runtime error`)},
+	{"out-of-memory", regexp.MustCompile(`out of memory|cannot allocate memory`)},
 	{"fatal-error", regexp.MustCompile(`fatal error`)},
 	{"goroutine-dump", regexp.MustCompile(`goroutine \d+ \[`)},
 }
@@ -62,7 +63,7 @@ func topFrame(out string) string {
 
 // dartLexCheck verifies that brackets are balanced and that strings and
 // comments terminate, with Dart's lexical rules: // and nestable /* */
-// comments, '..' ".." '''..''' """..""" strings, r-prefixed raw strings,
+// comments, '..' ".." ”'..”' """..""" strings, r-prefixed raw strings,
 // backslash escapes and ${ } interpolations (which nest code in strings).
 func dartLexCheck(src []byte) error {
 	type frame struct {
